@@ -26,6 +26,9 @@ var mgmt struct {
 	version string
 	btype   string
 	storage string
+	// fault404: "pools" / "bucket" = answer that REST lookup with 404 and a plain-text body (ns_server's reply
+	// for an unknown resource)
+	fault404 string
 }
 
 func mgmtURL() string {
@@ -38,11 +41,19 @@ func mgmtURL() string {
 		mux.HandleFunc("/pools", func(w http.ResponseWriter, r *http.Request) {
 			mgmt.mu.Lock()
 			defer mgmt.mu.Unlock()
+			if mgmt.fault404 == "pools" {
+				http.Error(w, "Not found.", http.StatusNotFound)
+				return
+			}
 			fmt.Fprintf(w, `{"implementationVersion":%q}`, mgmt.version)
 		})
 		mux.HandleFunc("/pools/default/buckets/", func(w http.ResponseWriter, r *http.Request) {
 			mgmt.mu.Lock()
 			defer mgmt.mu.Unlock()
+			if mgmt.fault404 == "bucket" {
+				http.Error(w, "Requested resource not found.", http.StatusNotFound)
+				return
+			}
 			fmt.Fprintf(w, `{"bucketType":%q,"storageBackend":%q}`, mgmt.btype, mgmt.storage)
 		})
 		go func() { _ = http.Serve(ln, mux) }()
@@ -54,8 +65,12 @@ func mgmtURL() string {
 func setMgmt(version, btype, storage string) {
 	mgmt.mu.Lock()
 	mgmt.version, mgmt.btype, mgmt.storage = version, btype, storage
+	mgmt.fault404 = mgmtFault
 	mgmt.mu.Unlock()
 }
+
+// mgmtFault is picked up by the next NewDcpEnv (and reset by resetGlobals)
+var mgmtFault string
 
 // DcpEnv is the lifecycle harness: the real newDcp -> Start()/Close() over the simulated cluster.
 type DcpEnv struct {
